@@ -24,8 +24,9 @@ from sim.clock import Clock, SimTimeout  # noqa: E402
 
 CHILD_WALL_S = 60          # harness safety only; never a verdict
 SHRINK_EVALS = 500
+SHRINK_TICKS = 25_000_000   # simulated time a single minimisation may spend
 MAX_BAD_CASES = 10          # a round stops early once this many cases violated (keeps broken trees cheap)
-MAX_REPORTED = 6            # distinct (class, site) violations minimised per round
+MAX_REPORTED = 4            # distinct (class, site) violations minimised per round
 
 
 class Env:
@@ -122,16 +123,19 @@ def _has(res, cls, site):
 
 
 def minimise(prop, case, cls, site, hashseed):
+    """Greedy ddmin.  Bounded by a number of candidate evaluations AND by simulated time (ticks), both deterministic:
+    on a tree where every candidate runs into its tick budget the search must not take hours."""
     evals = 0
-    size = lambda c: len(json.dumps(c, ensure_ascii=False))
+    spent = 0
     improved = True
-    while improved and evals < SHRINK_EVALS:
+    while improved and evals < SHRINK_EVALS and spent < SHRINK_TICKS:
         improved = False
         for cand in prop.shrink(case):
             evals += 1
-            if evals > SHRINK_EVALS:
+            if evals > SHRINK_EVALS or spent > SHRINK_TICKS:
                 break
             r = run_case_any(prop, cand, hashseed, wall=30)
+            spent += r.get('ticks', 0) if isinstance(r, dict) else 0
             if _has(r, cls, site):
                 case = cand
                 improved = True
